@@ -37,6 +37,32 @@ CHECKS = {
             "service-format INST, narrower legacy numeric columns, truncated / unknown-type PROP chunks); rbx_binary must decode each to the logical DOM.",
             "trusts: docs/binary.md, the implementation's UniqueId/Content.SourceTypes layout (disagreement with the document reported under C03)",
             "DESIGN.md 2/C04"),
+    "C09": ("exploration",
+            "model-based (stateful) property testing of operation histories with proptest + bounded-exhaustive enumeration of short histories",
+            "Generated histories of insert/destroy/transfer_within/transfer/clone*/into_raw+from_raw over 1-3 DOMs (arguments always inside the documented "
+            "preconditions) are executed on the real WeakDoms; after every step the forest invariants are checked through the public API. All histories of "
+            "length <= 2 (quick) / <= 3 (thorough) over every start tree with <= 4 nodes are enumerated exhaustively.",
+            "trusts: the reference model's reading of the documented operation semantics; the instance set is only fully visible through into_raw (done at the end of every history and as a random step)",
+            "DESIGN.md 2/C09-C12"),
+    "C10": ("exploration",
+            "model-based (stateful) property testing: lock-step diff of the real DOMs against a reference model after every operation",
+            "Same histories as C09; after every step every DOM is compared instance by instance (referent, parent, child order, name, class, properties, instance set) "
+            "with a plain ordered-tree model executing the documented meaning of the step.",
+            "trusts: the reference model (about 300 lines, documented semantics only)",
+            "DESIGN.md 2/C09-C12"),
+    "C11": ("exploration",
+            "model-based property testing of clone operations inside generated histories (isomorphism + three-way Ref rule oracle)",
+            "Every clone_within / clone_into_external / clone_multiple_into_external inside the C09 histories is bound to its source by a parallel walk and checked for "
+            "fresh referents, parentless roots, identical shape/order/names/classes/properties, Refs rewritten by the documented three-way rule, and an untouched source.",
+            "trusts: the reference model's three-way rule taken from the doc comments of clone_into_external / clone_multiple_into_external",
+            "DESIGN.md 2/C09-C12"),
+    "C12": ("exploration",
+            "model-based property testing with an order-agnostic validity predicate for UniqueIds; generated files with duplicate ids; multi-thread stress of UniqueId::now()",
+            "C09 histories over instances with UniqueIds from a 4-value pool, plus load-from-file steps; after every step ids are pairwise distinct per DOM, changed only on collision "
+            "(group rule that accepts every outcome the statement allows), regenerated ids fresh, freed ids reusable. Files containing duplicate ids are built independently and read by both "
+            "readers. UniqueId::now() is hammered from 16 threads (a stress sample, not schedule control). The XML reader defect is an open finding.",
+            "trusts: the validity predicate; concurrency part is a stress sample only",
+            "DESIGN.md 2/C09-C12"),
 }
 
 NOT_YET = {
